@@ -415,8 +415,8 @@ func judgeBody(c apiCase, e *apiEnv, g int, body string, ok bool) (kind, msg str
 		class = "custom"
 	case body == "":
 		class = "empty"
-	case strings.Contains(body, "<title>Something went wrong</title>"):
-		class = "builtin"
+	default:
+		class = "builtin" // any other page: the wording of the built-in page is not fixed by the property
 	}
 	if want.Page != "" && want.Page != "n/a" && class != want.Page {
 		return "wrong-body", fmt.Sprintf("Response wrote the %s page, the configuration selects the %s page (body %q)", class, want.Page, clip(body, 200))
